@@ -1,6 +1,6 @@
 (* Executable checkers for the correspondence run of C03 (and the parser half of C04): evaluated with
    vm_compute on the cases the harness observed on the implementation.  Imports no proofs. *)
-From P2 Require Import Base.Prelude Lex.Token Syn.Ast Syn.Parse Syn.Render.
+From P2 Require Import Base.Prelude Lex.Token Syn.Ast Syn.Parse Syn.Render Syn.TableBuild.
 Local Open Scope N_scope.
 
 (* what the harness observed when it called Parser.Parse *)
@@ -35,7 +35,12 @@ Record c03_in := mkIn {
   i_ids : idents;
   i_toks : list (N * str);          (* (token type number, image) as the parser received them *)
   i_kind : N;
-  i_cert : option rt                (* kind 0: the generator's rendering tree *)
+  i_cert : option rt;               (* kind 0: the generator's rendering tree *)
+  i_actual : list str;              (* the binary operators the REAL parser holds, in its order (hook); for tables handed to
+                                       parser2.Op directly this is i_ops, for tables built through the funcGen API
+                                       (AddOp*, AddOpBehind) it is what GetParser passed on *)
+  i_hist : list (str * str)         (* the declarations (anchor, operator) the table was built with through the funcGen
+                                       API, [] = the table was handed over as it is; i_ops is the PROMISED table *)
 }.
 
 Definition c03_case := (N * c03_in * obs)%type.
@@ -44,7 +49,7 @@ Definition c03_id (c : c03_case) : N := fst (fst c).
 Definition in_toks (i : c03_in) : list tk := map (fun p => (ttype_of_N (fst p), snd p)) (i_toks i).
 
 Definition model_obs (i : c03_in) : option obs :=
-  match parse (run_cfg (i_ops i) (i_unary i)) (i_ids i) (in_toks i) with
+  match parse (run_cfg (i_actual i) (i_unary i)) (i_ids i) (in_toks i) with
   | POk a => Some (OAst a)
   | PErr => Some OErr
   | PPanic => Some OPanic
@@ -103,8 +108,17 @@ Fixpoint tks_eqb (a b : list tk) : bool :=
   end.
 
 (* the implementation satisfies the specification side *)
+(* a table built through the generator API is the promised one, and the parser holds it *)
+Definition table_built_ok (i : c03_in) : bool :=
+  strs_eqb (i_actual i) (i_ops i) &&
+  match i_hist i with
+  | [] => true
+  | h => match build_table [] h with Some t => strs_eqb t (i_ops i) | None => false end
+  end.
+
 Definition c03_is (c : c03_case) : bool :=
   let i := snd (fst c) in
+  table_built_ok i &&
   let o := snd c in
   let cfg := run_cfg (i_ops i) (i_unary i) in
   let ts := in_toks i in
